@@ -24,6 +24,8 @@ pub fn bases(thorough: bool) -> Vec<Base> {
     // repeated recognised headers: what a later line may and may not change
     variants.push((vec![("Transfer-Encoding", "chunked".into()), ("Transfer-Encoding", "identity".into())], vec![]));
     variants.push((vec![("Transfer-Encoding", "identity".into()), ("Accept", "text/plain".into()), ("Transfer-Encoding", "chunked".into()), ("Accept", "application/json".into())], vec![]));
+    // valid non-ASCII UTF-8 in header names and values
+    variants.push((vec![("X-Owner", "Zo\u{eb} M\u{fc}ller".into()), ("X-\u{3b1}", "1".into()), ("Accept", "text/\u{2603}".into())], vec![]));
     if thorough {
         variants.push((vec![("Content-Length", "4294967295".into()), ("X-a", "1".into()), ("Content-Length", "0".into())], vec![]));
         variants.push((vec![("content-length", " 12 ".into()), ("X-b", "v:w".into())], b"\r\n\r\nGET / HT".to_vec()));
